@@ -184,8 +184,8 @@ fn main() {
         .enumerate()
         {
             for (bi, b) in bs.iter().enumerate() {
-                // quick tier: the longest bases are sampled (1 in 6, rotating with the seed)
-                if !args.thorough() && b.len() == l && (pi == 1 || (bi as u64 + args.seed) % 6 != 0) {
+                // quick tier: the longest bases are sampled (1 in 3, rotating with the seed)
+                if !args.thorough() && b.len() == l && (pi == 1 || (bi as u64 + args.seed) % 3 != 0) {
                     continue;
                 }
                 let mut full = prefix.clone();
@@ -221,7 +221,12 @@ fn main() {
         for k in 1..=4 {
             bases(k, true, &mut tbs);
         }
-        for (bi, b) in tbs.iter().enumerate() {
+        // second variant: a snapshot transaction (id 1) is already open when the base starts
+        let mut tprefix_open = tprefix.clone();
+        tprefix_open.push(Op::Begin(true));
+        for (bi, b) in tbs.iter().enumerate().chain(tbs.iter().enumerate()).enumerate().map(|(k, (bi, b))| ((bi, k >= tbs.len()), b)) {
+            let (bi, open_variant) = bi;
+            let tprefix = if open_variant { &tprefix_open } else { &tprefix };
             if b.len() == 4 && (!args.thorough() || (bi as u64 + args.seed) % 4 != 0) {
                 continue; // length 4: thorough tier only, 1 in 4
             }
@@ -245,11 +250,11 @@ fn main() {
         rep.exhaustive = true;
         rep.exhaustive_note = format!(
             "{} histories: two creation prefixes (relationship created with / without properties, at version 1 / 2) x every base \
-             history of up to {} steps (quick tier: all up to one less, a sixth of the longest) over {{set node prop, set rel prop, bump, begin SI, begin RC, commit 1, remove prop, add label, \
+             history of up to {} steps (quick tier: all up to one less, a third of the longest) over {{set node prop, set rel prop, bump, begin SI, begin RC, commit 1, remove prop, add label, \
              abort 2}} x gc_versions(w) for every w in 0..=cur+1 and gc_auto at every position; the same gc insertion over every base history of up to 3 \
              steps (thorough: a quarter of those of 4) over {{begin SI, begin RC, txn_write_node(1,n1), txn_write_node(2,n1), \
              txn_write_edge(1,r1), set node prop, set rel prop, bump, commit 1, commit 2, abort 1}} after a prefix that gives node and \
-             relationship two versions; plus PRNG histories with several gcs and registered write sets (not exhaustive)",
+             relationship two versions (once with, once without a snapshot transaction already open); plus PRNG histories with several gcs and registered write sets (not exhaustive)",
             seqs.len() - before,
             l
         );
